@@ -8,7 +8,7 @@ CFG = {
              "second layer with glyph libs and layerinfo; each tree is loaded 12x (quick) / 32x (thorough) in-process (fresh RandomState per "
              "HashMap) and every 8th tree in 2 / 4 freshly spawned processes; every loaded font is saved, the first one three times; dumps and "
              "tree hashes are compared; a third of the trees additionally get 1-4 data-store inserts through the API before each save (keys from a "
-             "pool with aliases: a.txt, ./a.txt, b/c.txt, b/./c.txt, n.txt, ./n.txt). The first font of every tree is also saved over five pre-states of the target (absent, empty directory, non-empty non-UFO directory with stale feature file/data/hidden file/glyphs, another UFO, UFO-like directory without metainfo.plist) and must give one tree. Plus 80 (quick) / 800 (thorough) format-1 trees whose feature dictionary holds 2-4 spellings that collapse onto a tag of the order list under a normalisation (blanks incl. Unicode, BOM/zero-width, case, NFC/NFD, _/-), without and with the exact key, every second one also in fresh processes. Plus `lib` cases: 1200 (quick) / 20000 (thorough) random lib values "
+             "pool with aliases: a.txt, ./a.txt, b/c.txt, b/./c.txt, n.txt, ./n.txt). The first font of every tree is also saved over five pre-states of the target (absent, empty directory, non-empty non-UFO directory with stale feature file/data/hidden file/glyphs, another UFO, UFO-like directory without metainfo.plist) and must give one tree. Plus 80 (quick) / 800 (thorough) format-1 trees whose feature dictionary holds 2-4 spellings that collapse onto a tag of the order list under a normalisation (blanks incl. Unicode, BOM/zero-width, case, NFC/NFD, _/-), without and with the exact key, every second one also in fresh processes. Plus 30 `dup` trees (a shared identifier between every ordered pair of glyph object kinds, between the fontinfo guidelines, and accepted controls) that the unchanged code refuses: the outcome must be the same in every load and process. Plus `lib` cases: 1200 (quick) / 20000 (thorough) random lib values "
              "(depth <=4, dictionaries, arrays, dictionaries inside arrays) set as font lib, layer lib and glyph lib of two fonts built through the API "
              "with the same map but another insertion order at every dictionary (a quarter also inside arrays), saved and compared byte for byte. "
              "non-trivial = at least one generated group name needs a numeric suffix, or a requested tag has no exact key among >=2 blocks, or a format-1 tree has >=2 feature blocks and no featureorder, "
